@@ -21,6 +21,7 @@ type vLvl struct {
 	spec     string
 	action   bool
 	intOpt   bool // declares IntOpt -n
+	ownHelp  bool // declares its own option named "h help"
 	longDesc string
 	kids     []*vLvl
 	id       int
@@ -79,6 +80,10 @@ func vTree(t int) (root *vLvl, version bool) {
 		root = &vLvl{names: "app", spec: "[-f] [X]", action: true, kids: []*vLvl{
 			{names: "c cc", spec: "[X]", action: true}}}
 		version = true
+	case 6:
+		// a command may declare an option spelled like the help flag: help still wins
+		root = &vLvl{names: "app", spec: "[-h] [X]", action: true, ownHelp: true, kids: []*vLvl{
+			{names: "c", spec: "[-f] [X]", action: true}}}
 	}
 	n := 0
 	var number func(l *vLvl)
@@ -117,6 +122,9 @@ func vDeclare(cmd *Cmd, l *vLvl, run *vTreeRun) {
 	cmd.Spec = l.spec
 	cmd.LongDesc = l.longDesc
 	f := cmd.Bool(BoolOpt{Name: "f ff"})
+	if l.ownHelp {
+		cmd.Bool(BoolOpt{Name: "h help"})
+	}
 	var n *int
 	if l.intOpt {
 		n = cmd.Int(IntOpt{Name: "n"})
@@ -167,7 +175,7 @@ func vRunTree(root *vLvl, version bool, policy flag.ErrorHandling, argv []string
 	}
 	if onlyLevel != nil {
 		// the single-level application of one level: same declarations and spec, no children
-		single := &vLvl{names: "app", spec: onlyLevel.spec, action: true, intOpt: onlyLevel.intOpt, id: onlyLevel.id}
+		single := &vLvl{names: "app", spec: onlyLevel.spec, action: true, intOpt: onlyLevel.intOpt, ownHelp: onlyLevel.ownHelp, id: onlyLevel.id}
 		vDeclare(app.Cmd, single, run)
 	} else {
 		vDeclare(app.Cmd, root, run)
